@@ -54,6 +54,11 @@ def lib_loops(strb):
         (r"(^|_)encode64(\$link\d+)?$", r"for \(i = 0; i < srclen", 24, False),
         (r"(^|_)encode64(\$link\d+)?$", r"while \(bits < 24|^\s*do\s*$|do \{", 5, False),
         (r"N2log2", None, 66, False),
+        (r"decode64_uint32(_fixed)?$", None, 8, False),
+        (r"yescrypt_decode64$", r"while \(srclen--\)", 6, False),
+        (r"yescrypt_decode64$", r"dstpos\+\+ <", 5, False),
+        (r"yescrypt_decode64$", r"dstpos <= \*dstlen", 26, False),
+        (r"^verify_salt$", None, strb, False),
         (r"^BF_encode$", None, 8, False),
         (r"^to64$", None, 6, False),
         (r"gensalt_sha1crypt_rn$", None, 24, False),
